@@ -137,7 +137,7 @@ def main():
   dist = collections.Counter()
   nontrivial = set()
   samples = []
-  n_cases = 600 if tier == 'thorough' else 120
+  n_cases = 2000 if tier == 'thorough' else 200
   # ---- (3) fresh processes, other hash seeds: started first, collected last ----
   n_hash = 150 if tier == 'thorough' else 30
   children = []
